@@ -215,6 +215,34 @@ def run(ctx):
         exp = hexs(chr(cp).encode("utf-8")) if ok else "none"
         if impl[base + k] != exp:
             ctx.fail("std-encode", "char %d encodes to %s, expected %s" % (cp, impl[base + k], exp), [cases[k]], [impl[base + k]], exp)
+    # 0b. the SWAR helpers of util.rs, per function through the hooks, against their byte-wise meaning
+    words = []
+    for _ in range(ctx.scale(4000, 60000)):
+        r = rng.random()
+        if r < 0.3:
+            b = bytearray(rng.randrange(256) for _ in range(8))
+        elif r < 0.6:
+            b = bytearray(rng.choice(b"\t\n\x08\x0b \\{}a\x00\x01\x80\xff\x0a\x09") for _ in range(8))
+        else:
+            k = rng.randrange(9)
+            b = bytearray([rng.choice(b"\t\n")] * k + [rng.choice(b"\x08\x0b a\x00\x0c\x89\x8a\xff{")] * (8 - k))
+        if rng.random() < 0.3:
+            b[rng.randrange(8)] = rng.choice([0, 1, 0x7f, 0x80, 0xff, 0x5c, 0x5d, 0x5b, 0xdc])
+        words.append(bytes(b))
+    cases, meta = [], []
+    for w in words:
+        v = int.from_bytes(w, "little")
+        c = rng.choice([0x5c, 0x7b, 0x7d, 0x00, 0xff, 0x80, w[rng.randrange(8)]])
+        cases += ["util.czb\t%d" % v, "util.czb\t%d" % (v ^ int.from_bytes(bytes([c]) * 8, "little")), "util.cc\t%d\t%d" % (v, c), "util.lw\t%d" % v]
+        lead = 0
+        while lead < 8 and w[lead] in (9, 10):
+            lead += 1
+        meta += [str(0 in w).lower(), str(c in w).lower(), str(w.count(c)), str(lead)]
+    impl, _ = ctx.correspond("swar", cases, nontrivial=lambda c, i: i not in ("false", "0"))
+    base = len(impl) - len(cases)
+    for k, c in enumerate(cases):
+        if impl[base + k] != meta[k]:
+            ctx.fail("swar", "%s = %s, byte-wise meaning %s" % (c.replace("\t", " "), impl[base + k], meta[k]), [c], [impl[base + k]], meta[k])
     # 1. the 256-entry table (through the hook) against the own table
     cases = ["data.w1252\t%d" % b for b in range(256)]
     impl, _ = ctx.correspond("table", cases, nontrivial=lambda c, i: True)
